@@ -13,18 +13,35 @@ use crate::{
     AuthorId, NamespaceId,
 };
 
+/// A 32-byte id.  FULL: all 32 bytes independent symbolic values (thorough tier).  Otherwise
+/// 30 bytes of one symbolic fill value followed by two independent symbolic bytes: still covers
+/// the all-0xFF / trailing-0xFF / 0x00 edges that the bound arithmetic depends on, with far fewer
+/// SAT variables.
+pub fn id32<S: Src, const FULL: bool>(s: &mut S) -> [u8; 32] {
+    if FULL {
+        s.arr()
+    } else {
+        let fill = s.u8();
+        let t: [u8; 2] = s.arr();
+        let mut a = [fill; 32];
+        a[30] = t[0];
+        a[31] = t[1];
+        a
+    }
+}
+
 // ---------------------------------------------------------------------------------------------
 // C02/C05/C08/C16 bounds kernel: the range handed to redb contains exactly the ids it should.
 // ---------------------------------------------------------------------------------------------
 
 /// `RecordsBounds::author_prefix(ns, a, p)` contains `id` <=> same ns, same author, key starts
 /// with p.  P = prefix length, K = candidate key length (concrete per instance).
-pub fn bounds_author_prefix<S: Src, const P: usize, const K: usize>(s: &mut S) {
-    let ns: [u8; 32] = s.arr();
-    let author: [u8; 32] = s.arr();
+pub fn bounds_author_prefix<S: Src, const P: usize, const K: usize, const FULL: bool>(s: &mut S) {
+    let ns: [u8; 32] = id32::<S, FULL>(s);
+    let author: [u8; 32] = id32::<S, FULL>(s);
     let prefix: [u8; P] = s.arr();
-    let cns: [u8; 32] = s.arr();
-    let cauthor: [u8; 32] = s.arr();
+    let cns: [u8; 32] = id32::<S, FULL>(s);
+    let cauthor: [u8; 32] = id32::<S, FULL>(s);
     let ckey: [u8; K] = s.arr();
     let b = RecordsBounds::author_prefix(
         NamespaceId::from(&ns),
@@ -34,10 +51,9 @@ pub fn bounds_author_prefix<S: Src, const P: usize, const K: usize>(s: &mut S) {
     let id: RecordsIdOwned = (cns, cauthor, Bytes::copy_from_slice(&ckey));
     let got = b.contains(&id);
     let want = cns == ns && cauthor == author && ckey.starts_with(&prefix);
-    if K >= P {
-        cv!(s, got && want, "bounds_author_prefix: a matching id exists");
-    }
-    cv!(s, !want && cns == ns && cauthor == author, "bounds_author_prefix: same author, other key");
+    // (instance-dependent witnesses are trivially true where the instance cannot satisfy them)
+    cv!(s, K < P || (got && want), "bounds_author_prefix: a matching id exists");
+    cv!(s, P == 0 || (!want && cns == ns && cauthor == author), "bounds_author_prefix: same author, other key");
     ck!(
         s,
         got == want,
@@ -45,15 +61,98 @@ pub fn bounds_author_prefix<S: Src, const P: usize, const K: usize>(s: &mut S) {
     );
 }
 
-pub fn dispatch<S: Src>(name: &str, s: &mut S) -> bool {
-    match name {
-        "c02_bounds_author_prefix_p0_k1" => bounds_author_prefix::<S, 0, 1>(s),
-        "c02_bounds_author_prefix_p1_k1" => bounds_author_prefix::<S, 1, 1>(s),
-        "c02_bounds_author_prefix_p1_k2" => bounds_author_prefix::<S, 1, 2>(s),
-        "c02_bounds_author_prefix_p2_k1" => bounds_author_prefix::<S, 2, 1>(s),
-        "c02_bounds_author_prefix_p2_k2" => bounds_author_prefix::<S, 2, 2>(s),
-        "c02_bounds_author_prefix_p2_k3" => bounds_author_prefix::<S, 2, 3>(s),
-        _ => return false,
-    }
-    true
+
+/// `RecordsBounds::author_key(ns, a, Exact(k) | Any)`.
+pub fn bounds_author_key<S: Src, const P: usize, const K: usize, const FULL: bool>(s: &mut S) {
+    let ns: [u8; 32] = id32::<S, FULL>(s);
+    let author: [u8; 32] = id32::<S, FULL>(s);
+    let fkey: [u8; P] = s.arr();
+    let exact = s.bool();
+    let cns: [u8; 32] = id32::<S, FULL>(s);
+    let cauthor: [u8; 32] = id32::<S, FULL>(s);
+    let ckey: [u8; K] = s.arr();
+    let filter = if exact {
+        KeyFilter::Exact(Bytes::copy_from_slice(&fkey))
+    } else {
+        KeyFilter::Any
+    };
+    let b = RecordsBounds::author_key(NamespaceId::from(&ns), AuthorId::from(&author), filter);
+    let id: RecordsIdOwned = (cns, cauthor, Bytes::copy_from_slice(&ckey));
+    let got = b.contains(&id);
+    let want = cns == ns && cauthor == author && (!exact || ckey[..] == fkey[..]);
+    cv!(s, got && want && !exact, "bounds_author_key: Any matches");
+    cv!(s, P != K || (got && want && exact), "bounds_author_key: Exact matches");
+    ck!(
+        s,
+        got == want,
+        "author_key range (Exact/Any) contains exactly the ids of that namespace+author with the exact key / any key",
+    );
+}
+
+/// `RecordsBounds::namespace(ns)`, `from_start(ns, Excluded(y))`, `to_end(ns, Included(x))`:
+/// the three pieces `get_range` is built from.
+pub fn bounds_namespace<S: Src, const K: usize, const B: usize, const FULL: bool>(s: &mut S) {
+    let ns: [u8; 32] = id32::<S, FULL>(s);
+    let cns: [u8; 32] = id32::<S, FULL>(s);
+    let cauthor: [u8; 32] = id32::<S, FULL>(s);
+    let ckey: [u8; K] = s.arr();
+    let id: RecordsIdOwned = (cns, cauthor, Bytes::copy_from_slice(&ckey));
+    let nsid = NamespaceId::from(&ns);
+
+    let got = RecordsBounds::namespace(nsid).contains(&id);
+    cv!(s, got, "bounds_namespace: an id inside the namespace");
+    cv!(s, !got && cns != ns, "bounds_namespace: an id outside the namespace");
+    ck!(s, got == (cns == ns), "namespace range contains exactly the ids of that namespace");
+
+    // a bound id inside the same namespace
+    let bauthor: [u8; 32] = id32::<S, FULL>(s);
+    let bkey: [u8; B] = s.arr();
+    let bound: RecordsIdOwned = (ns, bauthor, Bytes::copy_from_slice(&bkey));
+    let got = RecordsBounds::from_start(&nsid, Bound::Excluded(bound.clone())).contains(&id);
+    ck!(
+        s,
+        got == (cns == ns && id < bound),
+        "from_start(ns, Excluded(y)) contains exactly the ids of ns that sort before y",
+    );
+    let got = RecordsBounds::to_end(&nsid, Bound::Included(bound.clone())).contains(&id);
+    ck!(
+        s,
+        got == (cns == ns && id >= bound),
+        "to_end(ns, Included(x)) contains exactly the ids of ns that sort at or after x",
+    );
+}
+
+/// `ByKeyBounds::new(ns, filter)` / `ByKeyBounds::namespace(ns)` over the (ns, key, author) index.
+pub fn bounds_bykey<S: Src, const P: usize, const K: usize, const FULL: bool>(s: &mut S) {
+    let ns: [u8; 32] = id32::<S, FULL>(s);
+    let fkey: [u8; P] = s.arr();
+    let kind = s.u8();
+    s.assume(kind < 3);
+    let cns: [u8; 32] = id32::<S, FULL>(s);
+    let cauthor: [u8; 32] = id32::<S, FULL>(s);
+    let ckey: [u8; K] = s.arr();
+    let filter = match kind {
+        0 => KeyFilter::Any,
+        1 => KeyFilter::Exact(Bytes::copy_from_slice(&fkey)),
+        _ => KeyFilter::Prefix(Bytes::copy_from_slice(&fkey)),
+    };
+    let b = ByKeyBounds::new(NamespaceId::from(&ns), &filter);
+    let id: RecordsByKeyIdOwned = (cns, Bytes::copy_from_slice(&ckey), cauthor);
+    let got = b.contains(&id);
+    let want = cns == ns
+        && match kind {
+            0 => true,
+            1 => ckey[..] == fkey[..],
+            _ => ckey.starts_with(&fkey),
+        };
+    cv!(s, got && want && kind == 0, "bounds_bykey: Any matches");
+    cv!(s, K < P || (got && want && kind == 2), "bounds_bykey: Prefix matches");
+    cv!(s, P == 0 || (!want && cns == ns && kind == 2), "bounds_bykey: Prefix, other key in same namespace");
+    ck!(
+        s,
+        got == want,
+        "by-key index range contains exactly the (ns,key,author) rows whose namespace matches and key matches the filter",
+    );
+    let got = ByKeyBounds::namespace(NamespaceId::from(&ns)).contains(&id);
+    ck!(s, got == (cns == ns), "by-key namespace range contains exactly the rows of that namespace");
 }
